@@ -22,6 +22,8 @@ def gen():
                     alias = a.asname or "heapq"
     if alias is None:
         raise TranslationError(REL + ": `import heapq` not found")
+    check_class_surface(REL, tree, "PriorityQueue", [], {"front": ["property"]})
+    check_class_surface(REL, tree, "PriorityItem", ["dataclass"], {})
     # ---- PriorityItem: field order and comparator
     item = T.find_def(tree, "PriorityItem", REL)
     fields = []
@@ -159,10 +161,30 @@ UF_FIELDS = {"_elts": "list", "_par": "list", "_siz": "list", "_indx": "dict", "
              "_next": "int"}
 
 
+def check_class_surface(rel, tree, cls, class_decos, method_decos):
+    """Fail closed on decorators we do not know (memoisation ...) and on mutable default arguments of any method."""
+    node = T.find_def(tree, cls, rel)
+    decos = [T.dotted(d) if not isinstance(d, ast.Call) else T.dotted(d.func) for d in node.decorator_list]
+    if decos != class_decos:
+        T.fail(rel, node, "class %s has decorators %s (expected %s)" % (cls, decos, class_decos))
+    for n in node.body:
+        if isinstance(n, (ast.FunctionDef, ast.AsyncFunctionDef)):
+            d = [T.dotted(x) if not isinstance(x, ast.Call) else T.dotted(x.func) for x in n.decorator_list]
+            if d != method_decos.get(n.name, []):
+                T.fail(rel, n, "method %s.%s has decorators %s (expected %s)" % (cls, n.name, d, method_decos.get(n.name, [])))
+            for dv in list(n.args.defaults) + [x for x in n.args.kw_defaults if x is not None]:
+                if not (isinstance(dv, ast.Constant) and (dv.value is None or isinstance(dv.value, (int, float, str, bool)))):
+                    T.fail(rel, n, "method %s.%s has a default argument that is not None / an immutable constant" % (cls, n.name))
+        elif isinstance(n, (ast.Assign, ast.AnnAssign)) and cls != "PriorityItem":
+            # class-level attributes would be shared by every instance
+            T.fail(rel, n, "class-level attribute in %s" % cls)
+
+
 def gen_uf(parts):
     """UnionFind.__init__: the seven fields are initialised to constants, `None` stands for the empty container,
     and every element of the container goes through `self.add`. Anything else fails closed."""
     src, tree = T.load(UF_REL)
+    check_class_surface(UF_REL, tree, "UnionFind", [], {})
     fn = T.find_def(tree, "UnionFind.__init__", UF_REL)
     parts.append(("UnionFind.__init__", T.sha(src, fn)))
     params = [a.arg for a in fn.args.args]
